@@ -286,8 +286,14 @@ def upstream_observer_case(item):
         with contextlib.redirect_stdout(io.StringIO()), contextlib.redirect_stderr(io.StringIO()):
             up = Flow(src, obs).datastream()
             sel = item.get('select')
-            res, dp, _ = Flow(DF.load((up.dp.descriptor, up.res_iter), strip=False, **({} if sel is None else dict(resources=sel)))).results()
-        if sel is not None:
+            lim = item.get('limit')
+            res, dp, _ = Flow(DF.load((up.dp.descriptor, up.res_iter), strip=False, **({} if sel is None else dict(resources=sel)),
+                                      **({} if not lim else dict(limit_rows=lim)))).results()
+        if lim:
+            # the consumer reads only the first rows of every resource: the observer upstream still saw - and persisted - all of them
+            if res != [rows[:lim] for rows in srcs]:
+                return dict(ok=False, why='the consumer did not receive exactly the first %d rows of each resource' % lim, got=[len(x) for x in res])
+        elif sel is not None:
             # the consumer keeps one resource only: the observer upstream still saw - and persisted - all of them
             if res != [srcs[sel]]:
                 return dict(ok=False, why='the consumer did not receive exactly the selected resource', got=[len(x) for x in res])
@@ -355,17 +361,17 @@ def model_subflow(rep):
     for sel in ('{1, 2, 3}', '{2}', '{1, 3}', '{}'):
         for fe in ('FALSE', 'TRUE'):
             cfg = tlc.write_cfg(os.path.join(wd, 'ok.cfg'), spec='Spec', invariants=invs, properties=['Termination'],
-                                constants={'N': 3, 'R': 2, 'Selected': sel, 'FinalPullDone': 'TRUE', 'DrainSkipped': 'TRUE', 'FailsAtEnd': fe})
+                                constants={'N': 3, 'R': 2, 'Selected': sel, 'FinalPullDone': 'TRUE', 'DrainSkipped': 'TRUE', 'FailsAtEnd': fe, 'Limit': 1 if fe == 'FALSE' else 0, 'DrainLimited': 'TRUE'})
             res = tlc.run_tlc('SubFlow', cfg, allow_violation=False)
             rep.add_tlc(res, 'SubFlow N=3 R=2 Selected=%s FailsAtEnd=%s: the repaired consumer' % (sel, fe))
-    for fp, dr, sel, fe, want in (('FALSE', 'TRUE', '{1, 2, 3}', 'FALSE', 'UpstreamCompletes'), ('FALSE', 'TRUE', '{1, 2, 3}', 'TRUE', 'FailureSurfaces'),
-                                  ('TRUE', 'FALSE', '{2}', 'FALSE', 'ObserverSawAll')):
+    for fp, dr, sel, fe, want, lim, dl in (('FALSE', 'TRUE', '{1, 2, 3}', 'FALSE', 'UpstreamCompletes', 0, 'TRUE'), ('FALSE', 'TRUE', '{1, 2, 3}', 'TRUE', 'FailureSurfaces', 0, 'TRUE'),
+                                           ('TRUE', 'FALSE', '{2}', 'FALSE', 'ObserverSawAll', 0, 'TRUE'), ('TRUE', 'TRUE', '{1, 2, 3}', 'FALSE', 'ObserverSawAll', 1, 'FALSE')):
         cfg = tlc.write_cfg(os.path.join(wd, 'pin.cfg'), spec='Spec', invariants=invs,
-                            constants={'N': 3, 'R': 2, 'Selected': sel, 'FinalPullDone': fp, 'DrainSkipped': dr, 'FailsAtEnd': fe})
+                            constants={'N': 3, 'R': 2, 'Selected': sel, 'FinalPullDone': fp, 'DrainSkipped': dr, 'FailsAtEnd': fe, 'Limit': lim, 'DrainLimited': dl})
         r0 = tlc.run_tlc('SubFlow', cfg)
         if r0.violated != want:
             raise tlc.MachineryError('non-vacuity: SubFlow FinalPullDone=%s DrainSkipped=%s must violate %s (got %s)' % (fp, dr, want, r0.violated))
-    rep.notes['subflow_non_vacuity'] = 'without the final pull UpstreamCompletes / FailureSurfaces are refuted; with the final pull but unread skips ObserverSawAll is refuted'
+    rep.notes['subflow_non_vacuity'] = 'without the final pull UpstreamCompletes / FailureSurfaces are refuted; with the final pull but unread skips - or half-read limited resources - ObserverSawAll is refuted'
 
 
 def model_printer(rep, t):
@@ -512,6 +518,7 @@ def run():
                           category='menu/%s/%s' % (it['obs'], out['why'][:50]))
     model_subflow(rep)
     uitems = [dict(upstream=True, obs=o, shape=sh) for o in ('dump_to_path', 'dump_to_zip', 'stream', 'checkpoint', 'finalizer') for sh in ([2], [0], [2, 0, 3])]
+    uitems += [dict(upstream=True, obs=o, shape=[3, 0, 2], limit=1) for o in ('dump_to_path', 'dump_to_zip', 'stream', 'checkpoint', 'finalizer')]
     uitems += [dict(upstream=True, obs=o, shape=[2, 1, 3], select=k) for o in ('dump_to_path', 'dump_to_zip', 'stream', 'checkpoint', 'finalizer') for k in (0, 1, -1)]
     for it, out in zip(uitems, pmap(upstream_observer_case, uitems, chunksize=2)):
         if '__harness_error__' in out:
